@@ -58,7 +58,7 @@ try:
     def go(cmd, timeout=1500):
         t = time.time()
         r = subprocess.run(cmd, cwd=wt, env=env, capture_output=True, text=True, timeout=timeout)
-        return r.returncode, (r.stdout + r.stderr)[-1500:], round(time.time() - t, 1)
+        return r.returncode, (r.stdout + r.stderr)[-6000:], round(time.time() - t, 1)
 
     rc, out, t = go(demo_cmd)
     res["demo_unpatched"] = {"rc": rc, "s": t, "tail": out[-400:]}
@@ -73,7 +73,8 @@ try:
         os.remove(os.path.join(destdir, os.path.basename(f)))
     for attempt in range(4):
         rc, out, t = go(["go", "test", "-vet=off", "-count=1", "-timeout", "25m", "./..."])
-        if rc == 0 or "address already in use" not in out:
+        flaky = "address already in use" in out or ("fence/roaming" in out and out.count("--- FAIL") <= 1)
+        if rc == 0 or not flaky:
             break
         time.sleep(5)
     res["suite_patched"] = {"rc": rc, "s": t, "tail": out[-600:] if rc else "ok"}
